@@ -106,3 +106,28 @@ Example C06_nonvacuous :
   eval_off ExtZArith (pk_impl io Standard) p w 3 = [Fin 1; Fin (-1); Fin 1] /\
   eval_off ExtZArith (pk_impl io InputVacuity) p w 3 = [Fin 1; Fin (-1); Fin 1].
 Proof. cbv zeta. repeat split; vm_compute; reflexivity. Qed.
+
+(* the IA-STL dense-time online monitors (model DenseOnlineMon.mon_run with the predicate kinds the visitors compute, compared list for list with
+   update() by the dense stream of the check): for every formula of the online fragment, signals that start at 0 and ANY sequence of batches,
+   the concatenated outputs denote the tick semantics with the property's kinds up to their last stamp *)
+From RV Require DenseOnlineMon DenseOnlineMonCorrect DenseOnlineMonMore DenseOnlineMergeCorrect.
+Theorem C06_dense_online :
+  forall (VS : Val) (AR : Arith VS), (forall l r, neg (a2 AR Sub l r) = a2 AR Sub r l) -> DiffLaws AR ->
+  forall (io : nat -> bool) (sem : semantics) (p : formula) (W : list dsig) (tend : Z) (envs : list (list dsig)),
+    DenseOnlineMonCorrect.frag p = true ->
+    (forall x, DenseOnlineMonCorrect.feedsI [] (map (fun env => nth x env []) envs) (nth x W [])) ->
+    (forall x, dsorted (nth x W [])) ->
+    (forall x, nth x W [] <> [] -> start (nth x W []) = 0%Z) ->
+    exists d outs,
+      DenseOnlineMon.mon_run_fin AR (pk_impl io sem) p (DenseOnlineMon.mon_init p) envs = Some (d, outs) /\
+      DenseOnlineMergeCorrect.wsorted (concat outs) /\
+      (forall t, concat outs <> [] -> (0 <= t <= DenseOnlineMergeCorrect.lastT (concat outs))%Z ->
+         den_opt (concat outs) t = Some (rhoZ AR (pk_spec io sem) W tend p t)).
+Proof.
+  intros VS AR SN DL io sem p W tend envs Hf Hfe Hs H0.
+  destruct (DenseOnlineMonMore.mon_online_correct_frag_pk AR (pk_impl io sem) (or_intror DL) SN p W tend envs Hf Hfe Hs H0)
+    as (d & outs & S & _ & E & _ & _ & _ & Hw & _ & Hd & _).
+  exists d, outs. split; [exact E|]. split; [exact Hw|].
+  intros t Hne Ht. rewrite (Hd t Hne Ht). f_equal. apply rhoZ_pk_ext. apply pk_impl_spec.
+Qed.
+Print Assumptions C06_dense_online.
